@@ -56,6 +56,10 @@ def make_cases(tier, rng):
         tb = scopes.rec("a.Holder", [("f", scopes.fixed(f"a.Big{bi}", big)), ("g", scopes.arr(scopes.ref(f"a.Big{bi}")))])
         docb = schemadoc.spell(tb, rng, plain=(bi % 2 == 0))
         cases.append((f"fixed_size_{big}", docb, schemadoc.render(docb, rng, bi % 3), "valid"))
+    # a decimal precision beyond 32 bits (the same windows of big numbers; a precision is only ever compared)
+    tp = scopes.rec("a.HP", [("d", scopes.prim("bytes", lt="decimal", prec=2 ** 32 + 10, scale=3)), ("e", scopes.fixed("a.FP", 20, lt="decimal", prec=2 ** 32, scale=0))])
+    docp = schemadoc.spell(tp, rng, plain=True)
+    cases.append(("decimal_precision_beyond_32_bits", docp, schemadoc.render(docp, rng, 0), "valid"))
     # a reference that designates a fullname nobody defines, while a type of the same short name exists in the null namespace (or
     # in another namespace): the reference does not fall back to it
     kind0 = schemadoc.obj("enum", hasName=True, name=TT("Kind"), hasSymbols=True, symbols=[TT("S")])
